@@ -303,6 +303,7 @@ func rulesC01(p *Prog, r *Report) {
 
 	// R01.5 settlement side: totals reduced outside the vault handlers ------------------------
 	settlementTotals(p, r, "R01.5", true)
+	vaultCreditOutsideHandlers(p, r, "R01.8")
 
 	// R01.4 ------------------------------------------------------------------------
 	unitContextRule(p, r, "R01.4", func(u WorkUnit) bool { return u.Closure != nil && touches.Fn(u.Closure) }, 2)
@@ -660,4 +661,123 @@ func settlementTotals(p *Prog, r *Report, rule string, withCollateral bool) {
 			}
 		}
 	}
+}
+
+// vaultCreditOutsideHandlers (R01.8): outside the vault message handlers a vault's recorded
+// collateral is credited only by an amount that the same function moves into vault custody.
+// Instances: stores Vault.AmountIn = old + X, and the AmountIn argument of CreateNewVault.
+func vaultCreditOutsideHandlers(p *Prog, r *Report, rule string) {
+	r.Rule(rule, "outside the vault handlers, recorded vault collateral is credited by exactly an amount moved into vault custody in the same function", 3)
+	vaultMod := modConst(p, "x/vault/types")
+	create := p.MustFunc("x/vault/keeper.Keeper.CreateNewVault")
+	handlers := map[*ssa.Function]bool{}
+	for _, e := range vaultHandlers(p) {
+		handlers[e.Fn] = true
+	}
+	var fns []*ssa.Function
+	for _, fn := range p.Funcs {
+		if !p.isAuxFn(fn) && !handlers[fn] && len(fn.Blocks) > 0 {
+			fns = append(fns, fn)
+		}
+	}
+	sort.Slice(fns, func(i, j int) bool { return fname(fns[i]) < fname(fns[j]) })
+	movedIn := func(fn *ssa.Function) []string {
+		var out []string
+		for _, c := range calls(fn) {
+			if be := bankEffect(c); be != nil && (be.Op == "ModToMod" || be.Op == "AccToMod") && moduleName(be.To) == vaultMod {
+				out = append(out, p.amountKeys(be.Coins)...)
+			}
+		}
+		return out
+	}
+	for _, fn := range fns {
+		type credit struct {
+			v   ssa.Value
+			pos string
+			how string
+		}
+		var credits []credit
+		for _, b := range fn.Blocks {
+			for _, in := range b.Instrs {
+				switch x := in.(type) {
+				case *ssa.Store:
+					base, path := addrBase(x.Addr)
+					if len(path) == 0 || path[0] != "AmountIn" || namedTypeName(base.Type()) != "Vault" {
+						continue
+					}
+					if op, _, amt, ok := addSubOf(x.Val); ok && op == "Add" {
+						credits = append(credits, credit{amt, p.instrPos(x), "AmountIn +="})
+					}
+				case ssa.CallInstruction:
+					if p.callIsFn(x, create) {
+						if args := callArgs(x); len(args) >= 5 {
+							credits = append(credits, credit{args[4], p.instrPos(x), "CreateNewVault AmountIn"})
+						}
+					}
+				}
+			}
+		}
+		if len(credits) == 0 {
+			continue
+		}
+		moved := movedIn(fn)
+		for i, cr := range credits {
+			r.Instance(rule)
+			r.FuncsSeen[fname(fn)] = true
+			construct := fmt.Sprintf("%s %s #%d", fname(fn), cr.how, i+1)
+			alts := altKeys(p, cr.v)
+			if allAltsIn(alts, moved) {
+				r.OK(rule, construct, "credited amount is an amount moved into vault custody here", cr.pos)
+				continue
+			}
+			if fn == create && paramOnly(p, cr.v, fn) {
+				r.OK(rule, construct, "CreateNewVault credits its AmountIn parameter; every call site is its own instance of this rule", cr.pos)
+				continue
+			}
+			// a helper crediting its own parameter: every caller must move that amount in
+			okParam := false
+			for _, o := range p.DeepOrigins(cr.v) {
+				pr, isP := o.Val.(*ssa.Parameter)
+				if !isP || o.Kind != "param" || pr.Parent() != fn || len(o.Path) != 0 {
+					okParam = false
+					break
+				}
+				okParam = true
+				idx := paramIndex(pr)
+				sites := p.CallSitesOf(fn)
+				if len(sites) == 0 {
+					okParam = false
+				}
+				for _, cs := range sites {
+					cargs := cs.Common().Args
+					if idx >= len(cargs) || !allAltsIn(altKeys(p, cargs[idx]), movedIn(cs.Parent())) {
+						okParam = false
+					}
+				}
+				if !okParam {
+					break
+				}
+			}
+			if okParam {
+				r.OK(rule, construct, "credited amount is a parameter; every caller moves that amount into vault custody", cr.pos)
+				continue
+			}
+			r.Fail(rule, construct, fmt.Sprintf("the vault's recorded collateral is credited by %v, which is not an amount moved into vault custody in this function %v: records and custody diverge", keysOf(p, cr.v), uniq(moved)), cr.pos, nil)
+		}
+	}
+}
+
+// paramOnly: every origin of v is a whole parameter of fn.
+func paramOnly(p *Prog, v ssa.Value, fn *ssa.Function) bool {
+	os := p.DeepOrigins(v)
+	if len(os) == 0 {
+		return false
+	}
+	for _, o := range os {
+		pr, isP := o.Val.(*ssa.Parameter)
+		if !isP || o.Kind != "param" || pr.Parent() != fn || len(o.Path) != 0 {
+			return false
+		}
+	}
+	return true
 }
